@@ -91,16 +91,19 @@ type (
 
 	// statements
 	varDecl struct {
-		kind  string
-		decls []patElem
+		kind   string
+		decls  []patElem
+		export bool // written behind the keyword export (top level of a module only)
 	}
 	funcDecl struct {
-		name *decl
-		fn   *function
+		name   *decl
+		fn     *function
+		export bool
 	}
 	classDec struct {
-		name *decl
-		cls  *class
+		name   *decl
+		cls    *class
+		export bool
 	}
 	block  struct{ body []node }
 	ifStmt struct {
@@ -410,14 +413,23 @@ func (p *printer) varDecl(v *varDecl, forHead bool) {
 func (p *printer) stmt(n node) {
 	switch x := n.(type) {
 	case *varDecl:
+		if x.export {
+			p.w("export ")
+		}
 		p.varDecl(x, false)
 		p.w(";")
 	case *funcDecl:
+		if x.export {
+			p.w("export ")
+		}
 		p.w("function " + x.name.name)
 		p.params(x.fn)
 		p.w(" ")
 		p.stmts(x.fn.body)
 	case *classDec:
+		if x.export {
+			p.w("export ")
+		}
 		p.w("class " + x.name.name)
 		p.class(x.cls)
 	case *block:
